@@ -1,6 +1,7 @@
 package main
 
 import (
+	"runtime"
 	"strconv"
 	"bytes"
 	"fmt"
@@ -65,7 +66,7 @@ func runC01(c *ctx, r *Report) error {
 		nMut = 40000
 	}
 	repl := c01Replacements()
-	r.Rule = fmt.Sprintf("(1) node kind × tag × position: at EVERY node of the three base workflows (all sections of the syntax), of a local action.yml, of a reusable workflow and of actionlint.yaml, the node is replaced by each of %d replacements (mapping, empty mapping, sequence, nested, merge key, null, explicit !!float nan/.nan/.inf/1e999/-0/abc, !!int 0x/huge/abc, !!bool, !!binary, !custom, !!timestamp, broken placeholders, NUL, 70 kB scalar, deep parenthesis / property / JSON nesting) and keys are replaced by non-string nodes; an alias (with its anchor elsewhere) is planted at every position, bare and one / two levels inside a planted sequence or mapping, and as a mapping key; (2) %d random byte-level mutations (flip, insert special bytes, truncate, duplicate lines) of the four files incl. invalid UTF-8; (3) deep nesting and 64 KiB inputs in a child process; (4) 16 + 15 spellings of local workflow / action specs (well-formed, @ref, missing, directory, unparseable, placeholder, path tricks), each used twice in each of two files linted together, plain, with -verbose and with -debug logging (-verbose wins over -debug, so each is run alone); (4b) 8 of them in two files that belong to no repository, through Command.Main in a child process; every case must end in diagnostics or a fatal error (exit 0/1/3 through Command.Main for a sample), never a panic, fatal runtime error or a 20 s timeout; non-trivial = distinct mutated sources", len(repl), nMut)
+	r.Rule = fmt.Sprintf("(1) node kind × tag × position: at EVERY node of the three base workflows (all sections of the syntax), of a local action.yml, of a reusable workflow and of actionlint.yaml, the node is replaced by each of %d replacements (mapping, empty mapping, sequence, nested, merge key, null, explicit !!float nan/.nan/.inf/1e999/-0/abc, !!int 0x/huge/abc, !!bool, !!binary, !custom, !!timestamp, broken placeholders, NUL, 70 kB scalar, deep parenthesis / property / JSON nesting) and keys are replaced by non-string nodes; an alias (with its anchor elsewhere) is planted at every position, bare and one / two levels inside a planted sequence or mapping, and as a mapping key; (2) %d random byte-level mutations (flip, insert special bytes, truncate, duplicate lines) of the four files incl. invalid UTF-8; (3) deep nesting and 64 KiB inputs in a child process; (4) 16 + 15 spellings of local workflow / action specs (well-formed, @ref, missing, directory, unparseable, placeholder, path tricks), each used twice in each of two files linted together, plain, with -verbose and with -debug logging (-verbose wins over -debug, so each is run alone); (1b) 110 texts that a downstream parser or slicing code consumes (cron specs incl. time-zone prefixes, filter patterns, action / docker / workflow specs, shell templates, numbers, format strings) at the scalar values of the base workflows; (4c) 1 … 2·NumCPU+3 unreadable paths (missing, directories; first or last) plus one workflow in one LintFiles call: a fatal error within the time limit; (4b) 8 of them in two files that belong to no repository, through Command.Main in a child process; every case must end in diagnostics or a fatal error (exit 0/1/3 through Command.Main for a sample), never a panic, fatal runtime error or a 20 s timeout; non-trivial = distinct mutated sources", len(repl), nMut)
 	tmp, err := os.MkdirTemp("", "verif-c01-")
 	if err != nil {
 		return err
@@ -274,6 +275,57 @@ func runC01(c *ctx, r *Report) error {
 		}
 		restore()
 	}
+	// (1b) text that another parser or slicing code consumes downstream (cron specs for robfig/cron, filter patterns, action /
+	// docker / workflow specs, shell templates, numbers, format strings): every such text at every scalar VALUE of the base
+	// workflows (quick tier: at the values whose key names one of those consumers, and every 4th elsewhere)
+	{
+		hostile := []string{
+			"TZ=UTC", "CRON_TZ=Asia/Tokyo", "TZ=", "TZ=UTC 0 0 * * *", "CRON_TZ=Nowhere 0 0 * * *", "TZ=UTC\t0 0 * * *", "@every 1s", "@every", "@yearly", "@", "* * * * * *", "* * * *",
+			"*/0 * * * *", "60 * * * *", "0-59/0 * * * *", "1-0 * * * *", "99999999999999999999 * * * *", "? ? ? ? ?", "*/99999999999999999999 * * * *", "0 0 31 2 *", "-1 * * * *", "1,,2 * * * *", "1- * * * *", "/ * * * *",
+			"docker://", "docker://%zz", "docker://:@", "docker://a:b:c", "./", "./@", "../", "a/b@", "a/b/c/d@", "@", "@v1", "/", "//@", "a//@v1", "\\", "[", "[!", "[]", "[a-", "**[", "a\\", "!", "!!", "?", "+", "*?+",
+			"%", "%!s(MISSING)", "%[1]d", "{0}", "bash {0", "{", "}", "{0} {1}", "sh -c {0} {0}", "0x1p-2", "1e", "1e+", ".", "-", "--", "+1", "1_000", "0b1", "0o7", "Inf", "NaN", "~/", "~",
+			"${{ format('{0}') }}", "${{ format('{', 1) }}", "${{ format('{0', 1) }}", "${{ format('{999999999999999999999}', 1) }}", "${{ format('}}{{', 1) }}", "${{ x[ }}", "${{ 1e999 }}", "${{ 0x }}", "${{ 'a' }} ${{", "${{ fromJSON('{\"a\":') }}",
+		}
+		consumers := map[string]bool{"cron": true, "paths": true, "paths-ignore": true, "branches": true, "branches-ignore": true, "tags": true, "tags-ignore": true, "uses": true, "shell": true, "image": true, "timeout-minutes": true, "runs-on": true, "if": true, "working-directory": true, "types": true, "max-parallel": true, "ports": true, "volumes": true, "options": true, "url": true, "group": true, "run": true, "labels": true, "default": true, "type": true}
+		for bi, base := range []string{wfBaseA, wfBaseB, wfBaseC} {
+			rootNode, err := parseYAML(base)
+			if err != nil {
+				return err
+			}
+			var visits []yvisit
+			walkYAML(rootNode, nil, nil, &visits)
+			for vi, v := range visits {
+				if len(v.path) == 0 || v.isKey || v.node.Kind != yaml.ScalarNode {
+					continue
+				}
+				named := false
+				for _, k := range v.keys {
+					if consumers[k] {
+						named = true
+					}
+				}
+				for hi, h := range hostile {
+					if c.quick && !named && (vi+hi+bi)%4 != 0 {
+						continue
+					}
+					m := cloneNode(rootNode)
+					parent := nodeAt(m, v.path[:len(v.path)-1])
+					parent.Content[v.path[len(v.path)-1]] = &yaml.Node{Kind: yaml.ScalarNode, Tag: "!!str", Value: strings.ReplaceAll(h, "\\t", "\t"), Style: yaml.SingleQuotedStyle}
+					src, err := emitYAML(m)
+					if err != nil {
+						continue
+					}
+					what := fmt.Sprintf("%s ← text %q", strings.Join(v.keys, "."), h)
+					r.Evaluations++
+					r.nontrivial("hostile" + what)
+					r.hist("channel:hostile-text")
+					if _, _, pmsg, to := lintGuarded("w.yaml", src); pmsg != "" || to {
+						report("workflow", what, src, pmsg, to)
+					}
+				}
+			}
+		}
+	}
 	// (2) byte-level mutations
 	special := []string{"\x00", "\xff", "\xc3", "\n", "\t", ":", "- ", "&a ", "*a", "!!float ", "${{", "}}", "'", "\"", "|", ">", "[", "{", "#", "%", "\r\n", "\r", "\u0085", "\u2028", "\ufeff", "? ", "<<: "}
 	for i := 0; i < nMut; i++ {
@@ -429,6 +481,51 @@ func runC01(c *ctx, r *Report) error {
 		}
 		os.Remove(filepath.Join(root, ".github", "workflows", "caller2.yml"))
 		restore()
+	}
+	// (4c) paths that cannot be read: k missing files, directories and one readable file in one LintFiles call, for k up to
+	// twice the number of CPUs (the reads are bounded by a semaphore of that size: an error path that keeps its permit
+	// would starve the later files). Every call must return a fatal error within the time limit
+	{
+		cpus := runtime.NumCPU()
+		good := filepath.Join(root, ".github", "workflows", "caller.yml")
+		for _, k := range []int{1, 2, cpus - 1, cpus, cpus + 1, cpus + 2, 2*cpus + 3} {
+			if k < 1 {
+				continue
+			}
+			for _, layout := range []string{"missing-first", "missing-last", "directories"} {
+				var paths []string
+				for i := 0; i < k; i++ {
+					if layout == "directories" {
+						paths = append(paths, filepath.Join(root, ".github"))
+					} else {
+						paths = append(paths, filepath.Join(root, fmt.Sprintf("no-such-file-%d.yml", i)))
+					}
+				}
+				if layout == "missing-last" {
+					paths = append([]string{good}, paths...)
+				} else {
+					paths = append(paths, good)
+				}
+				var lerr error
+				pmsg, to := guarded(20*time.Second, func() {
+					l, err := actionlint.NewLinter(nopWriter{}, &actionlint.LinterOptions{Shellcheck: "", Pyflakes: ""})
+					if err != nil {
+						lerr = err
+						return
+					}
+					_, lerr = l.LintFiles(paths, nil)
+				})
+				r.Evaluations++
+				r.nontrivial(fmt.Sprintf("unreadable:%d:%s", k, layout))
+				r.hist("channel:unreadable-files")
+				what := fmt.Sprintf("%d unreadable paths (%s) and one workflow in one LintFiles call, %d CPUs", k, layout, cpus)
+				if pmsg != "" || to {
+					report("unreadable-files", what, strings.Join(paths, "\n"), pmsg, to)
+				} else if lerr == nil {
+					r.finding("unreadable-file-not-fatal", what+": no fatal error", Case{Op: "lintfiles", Input: map[string]string{"paths": strings.Join(paths, "\n")}})
+				}
+			}
+		}
 	}
 	// (4b) the same spec spellings in files that belong to NO repository (no .git above them), two files per invocation, in a
 	// child process (a panic in one of the per-file goroutines cannot be recovered in-process)
